@@ -336,6 +336,15 @@ def c14_cases(draw, max_nodes=14):
         ren = {n['id']: n['id'] * k + off for n in wf['nodes']}
         wf = {'nodes': [dict(n, id=ren[n['id']]) for n in wf['nodes']],
               'edges': [[ren[u], ren[v], x] for u, v, x in wf['edges']]}
+    elif len(wf['nodes']) <= 18 and draw(st.integers(0, 2)) == 0:
+        # string labels in the style of the repository's workflow files (c<channel>_<index>), drawn from a pool in which
+        # labels differ only in where the underscore sits, in case, or by a leading zero
+        pool = ['c1_10', 'c11_0', 'c1_1', 'c11', 'c_11', 'c1_11', 'c11_1', 'c2_13', 'c21_3', 'c213', 'C1_1', 'c1_01', 'c10_1',
+                'c1_0_1', 'c10_', '_c10', 'c1__0', 'c1_0']
+        labels = draw(st.permutations(pool))[:len(wf['nodes'])]
+        ren = {n['id']: labels[i] for i, n in enumerate(wf['nodes'])}
+        wf = {'nodes': [dict(n, id=ren[n['id']]) for n in wf['nodes']],
+              'edges': [[ren[u], ren[v], x] for u, v, x in wf['edges']]}
     name = draw(st.text(C14_NAME_ALPHABET, min_size=1, max_size=6))
     clock = draw(st.sampled_from([0, 1, 7, 10, 123]))
     return {'wf': wf, 'name': name, 'clock': clock, 'duration': draw(st.integers(1, 9)),
@@ -644,7 +653,7 @@ class C15(SimSpec):
     technique = "property-based testing + exhaustive grid over the delay model's arguments; simulations with injected delay vectors"
     rule = ("(a) DelayModel.generate_delay over {normal, poisson, uniform} x 4 degrees x probabilities x seeds x runtimes 0..200 "
             "(quick: Hypothesis sample incl. arbitrary float probabilities and seeds to 2^32; thorough: the full grid "
-            "3 x 4 x {0,.1,.5,1} x seeds 0..49 x runtimes 0..200 = 482 400 cases, exhaustive); (b) simulations with injected per-task "
+            "3 x 4 x {0,.1,.5,1} x seeds 0..49 x runtimes 0..200 = 482 400 cases, exhaustive); (a') per shard a batch of 24 questions answered in this process after a decoy model with another seed was asked the same question, and in a fresh interpreter without that history; (b) simulations with injected per-task "
             "delay vectors. Non-trivial component case = a delay was actually added (result > runtime); non-trivial simulation = a "
             "delayed task finished; distinct = distinct case / scenario JSON")
     level_text = ("exploration (grid part exhaustive in the thorough tier): no exception; result >= runtime; == runtime for degree none, "
@@ -686,6 +695,8 @@ class C15(SimSpec):
         return state.split_known(out)
 
     def body(self, case, state):
+        if 'xproc' in case:
+            return self.xproc_body(case, state)
         if 'dist' in case:
             return self.comp_body(case, state)
         return super().body(case, state)
@@ -693,7 +704,56 @@ class C15(SimSpec):
     def replay_case(self, case, state):
         return self.body(case, state)
 
+    # ---- "identical for identical seed and arguments", also across processes with different query histories
+    XPROC_CHILD = ("import sys, json\n"
+                   "from topsim.core.delay import DelayModel\n"
+                   "out = []\n"
+                   "for c in json.load(sys.stdin):\n"
+                   "    m = DelayModel(c['prob'], c['dist'], DelayModel.DelayDegree[c['degree']], seed=c['seed'])\n"
+                   "    out.append(float(m.generate_delay(c['runtime'])))\n"
+                   "print(json.dumps(out))\n")
+
+    def xproc_body(self, case, state):
+        """case = {'xproc': [delay cases with pairwise different runtimes]}: in THIS process every case's arguments are first
+        queried with a decoy model of another seed, then with the case's seed; a fresh interpreter answers the same questions
+        without any such history; the answers must be equal"""
+        import subprocess
+        import sys
+        from topsim.core.delay import DelayModel
+        state.evaluations += 1
+        here = []
+        for c in case['xproc']:
+            deg = DelayModel.DelayDegree[c['degree']]
+            DelayModel(c['prob'], c['dist'], deg, seed=c['seed'] + 1).generate_delay(c['runtime'])      # decoy, other seed
+            here.append(float(DelayModel(c['prob'], c['dist'], deg, seed=c['seed']).generate_delay(c['runtime'])))
+        r = subprocess.run([sys.executable, '-c', self.XPROC_CHILD], input=json.dumps(case['xproc']), capture_output=True, text=True)
+        if r.returncode != 0:
+            raise HarnessError('C15 cross-process child failed: ' + r.stderr[-400:])
+        there = json.loads(r.stdout.strip().splitlines()[-1])
+        out = []
+        for c, a, b in zip(case['xproc'], here, there):
+            if a != b:
+                out.append(O.V('C15', 'depends_on_process_history', f"{c}: {a} in a process where a model with seed {c['seed'] + 1} was asked the same "
+                               f"question before, {b} in a fresh interpreter"))
+                break
+        state.count('cross_process_cases', len(here))
+        if any(a > c['runtime'] for c, a in zip(case['xproc'], here)):
+            state.nontrivial.add(case_hash(case))
+        for v in out:
+            v['sig'] = v['part']
+        return state.split_known(out)
+
     def run_shard(self, state, tier, seed, shard, nshards, cases=None):
+        import random
+        rnd = random.Random(shard_seed(seed, self.prop, shard, 'xproc'))      # derived from VERIF_SEED only
+        for _ in range(1 if tier == 'quick' else 6):
+            rts = rnd.sample(range(20, 200), 24)
+            batch = {'xproc': [{'dist': rnd.choice(DISTS), 'degree': rnd.choice(['LOW', 'MID', 'HIGH']), 'prob': rnd.choice([1.0, 1.0, 0.5]),
+                                'seed': rnd.randrange(0, 1000), 'runtime': rt} for rt in rts]}
+            bad = self.xproc_body(batch, state)
+            if bad:
+                state.failures.append((batch, bad))
+                return
         if tier == 'quick':
             strat = st.fixed_dictionaries({
                 'dist': st.sampled_from(DISTS), 'degree': st.sampled_from(DEGREES),
@@ -733,8 +793,12 @@ def physical_config(f, vals):
     inst = {'telescope': {
         'total_arrays': vals['arrays'], 'max_ingest_resources': vals['max_ingest'],
         'pipelines': {o['name']: {'workflow': 'wf.json', 'ingest_demand': o['ingest']} for o in vals['obs']},
-        'observations': [{'name': o['name'], 'start': o['a'] * f, 'duration': o['b'] * f,
-                          'instrument_demand': o['demand'], 'data_product_rate': o['rate']} for o in vals['obs']]}}
+        # the optional per-observation keys the parser reads (workflow resource limits: counts, never rescaled) are present in
+        # some entries
+        'observations': [dict({'name': o['name'], 'start': o['a'] * f, 'duration': o['b'] * f,
+                               'instrument_demand': o['demand'], 'data_product_rate': o['rate']},
+                              **{k: v for k, v in (('min_workflow_resources', o.get('minres')), ('max_workflow_resources', o.get('maxres')))
+                                 if v is not None}) for o in vals['obs']]}}
     cluster = {'header': {}, 'system': {'resources': {f"m{i}": {'flops': c, 'compute_bandwidth': b}
                                                         for i, (c, b) in enumerate(vals['machines'])},
                                         'system_bandwidth': vals['sysbw']}}
@@ -823,7 +887,8 @@ def c16_vals(draw):
         'arrays': draw(st.integers(1, 64)), 'max_ingest': draw(st.integers(1, 8)),
         'obs': [{'name': f"o{i}", 'a': draw(st.integers(0, 50)), 'b': draw(st.integers(1, 20)),
                  'demand': draw(st.integers(1, 64)), 'rate': draw(st.integers(1, 40)),
-                 'ingest': draw(st.integers(1, 8))} for i in range(nobs)],
+                 'ingest': draw(st.integers(1, 8)), 'minres': draw(st.sampled_from([None, None, 1, 2])),
+                 'maxres': draw(st.sampled_from([None, None, 2, 5]))} for i in range(nobs)],
         'machines': [(draw(st.integers(1, 100)), draw(st.integers(1, 50))) for _ in range(draw(st.integers(1, 3)))],
         'sysbw': draw(st.integers(1, 10)),
         'hot_cap': draw(st.integers(1, 10 ** 6)), 'hot_rate': draw(st.integers(1, 60)),
@@ -1355,7 +1420,10 @@ register(C18)
 
 class C19(SIM_SPECS['C19'].__class__):
     hist_cases = {'quick': 800, 'thorough': 20000}
-    technique = "property-based testing: idle/empty/finished queries against the shadow model along simulations and cluster operation histories"
+    rule = SIM_SPECS['C19'].__class__.rule + ("; plus buffer tier-operation histories (the C18 generator: store / move hot->cold / move cold->hot / "
+                                              "step, overlapping moves) after every operation of which Buffer.is_empty() is compared with the two tiers' "
+                                              "free space - the only way to have data in the cold tier without entering the known-broken tiering policy")
+    technique = "property-based testing: idle/empty/finished queries against the shadow model along simulations, cluster operation histories and buffer tier-operation histories"
 
     def hist_body(self, case, state):
         n, max_ingest, ops = case
@@ -1370,7 +1438,43 @@ class C19(SIM_SPECS['C19'].__class__):
             state.nontrivial.add(case_hash(['hist', n, max_ingest, m.ops]))
         return state.split_known(viol)
 
+    # ---- Buffer.is_empty along tier-operation histories (data resting in, or moving to / from, the cold tier)
+    tier_cases = {'quick': 1600, 'thorough': 20000}
+
+    def tier_body(self, case, state):
+        import contextlib
+        import io
+        hc, cc, hr, cr, ops = case['tier']
+        state.evaluations += 1
+        m = TierModel(hc, cc, hr, cr)
+        out = []
+        seen = set()
+        with contextlib.redirect_stdout(io.StringIO()):
+            for op in list(ops) + [['step', 3]]:
+                if m.dead:
+                    break
+                if m.apply(op):            # a C18 matter, judged there; the state is no longer trustworthy here
+                    break
+                said = bool(m.buf.is_empty())
+                truth = (m.hot.current_capacity == m.hot.total_capacity and m.cold.current_capacity == m.cold.total_capacity)
+                cold_only = m.hot.current_capacity == m.hot.total_capacity and m.cold.current_capacity != m.cold.total_capacity
+                seen.add((truth, cold_only))
+                state.count(f"tier:empty_truth_{truth}")
+                if cold_only:
+                    state.count('tier:data_in_cold_tier_only')
+                if said and not truth:
+                    out.append(O.V('C19', 'buffer_query', f"after {op}: Buffer.is_empty() is True but hot free {m.hot.current_capacity}/{m.hot.total_capacity}, "
+                                   f"cold free {m.cold.current_capacity}/{m.cold.total_capacity}"))
+                    break
+        if (True, False) in seen and (False, True) in seen:
+            state.nontrivial.add(case_hash(case))
+        for v in out:
+            v['sig'] = v['part']
+        return state.split_known(out)
+
     def body(self, case, state):
+        if isinstance(case, dict) and 'tier' in case:
+            return self.tier_body(case, state)
         if isinstance(case, list):
             return self.hist_body(case, state)
         return super().body(case, state)
@@ -1381,6 +1485,10 @@ class C19(SIM_SPECS['C19'].__class__):
     def run_shard(self, state, tier, seed, shard, nshards, cases=None):
         run_given(state, history_strategy(), self.hist_body, max(1, (cases or self.hist_cases[tier]) // nshards),
                   shard_seed(seed, self.prop, shard, 'hist'))
+        if state.failures:
+            return
+        run_given(state, tier_history_strategy().map(lambda c: {'tier': c}), self.tier_body,
+                  max(1, (cases or self.tier_cases[tier]) // nshards), shard_seed(seed, self.prop, shard, 'tier'))
         if state.failures:
             return
         total = cases or self.cases[tier]
